@@ -82,6 +82,10 @@ fn first_stream_mismatch(log: &[hshim::env::Act], c: &Canon) -> Option<usize> {
     None
 }
 
+const SPIN_EPILOGUE: &[u8] = b"[]>[]>[]>[]>[]";
+/// cell 3 := 1; scan left to the first zero cell; step right; scan right to cell 4; spin on c, b, a
+const SCAN_SPIN_EPILOGUE: &[u8] = b">>>[-]+[<]>[>]<<[]<[]<[]";
+
 pub fn worker(ctx: &mut WorkerCtx) {
     let p = plan(ctx.tier);
     let mut work: Vec<(u64, Vec<u8>)> = Vec::new();
@@ -113,7 +117,12 @@ pub fn worker(ctx: &mut WorkerCtx) {
     let mut with_spin = |i: u64, c: &[u8], spin: &mut Vec<(u64, Vec<u8>)>| {
         if ctx.owns(i) && c.ends_with(epi) {
             let mut v = c[..c.len() - epi.len()].to_vec();
-            v.extend_from_slice(b"[]>[]>[]>[]>[]");
+            v.extend_from_slice(SPIN_EPILOGUE);
+            spin.push((i, v));
+            // the same through a dynamic pointer: after two scans the optimiser no longer knows where the
+            // pointer is, so the spins test what is really in memory, not what constant propagation believes
+            let mut v = c[..c.len() - epi.len()].to_vec();
+            v.extend_from_slice(SCAN_SPIN_EPILOGUE);
             spin.push((i, v));
         }
     };
@@ -187,7 +196,7 @@ fn is_wide(code: &[u8]) -> bool {
 pub fn replay_program(ctx: &mut WorkerCtx, code: &[u8]) {
     let p = plan(ctx.tier);
     let mut silent_done = 0u64;
-    let spin = code.ends_with(b"[]>[]>[]>[]>[]");
+    let spin = code.ends_with(SPIN_EPILOGUE) || code.ends_with(SCAN_SPIN_EPILOGUE);
     judge_program(ctx, &p, code, &mut silent_done, spin);
 }
 
